@@ -164,6 +164,20 @@ LoopScope == {CaseOf("C07/loopscope/" \o sh \o "/" \o F \o "-" \o G \o "/" \o a 
                      \o PlaceOf(pl, LoopOf(sh, <<DefVF(F), UseV>>) \o AfterOf(a, sh, F, G)) \o <<Print1(StrL("end"))>>)
               : sh \in LoopShapes, F \in Forms, G \in {"short", "callmulti"}, a \in Afters, pl \in Places}
 
-All == LoopScope \cup VarPairs \cup FuncPairs \cup PlaceCases \cup Redef \cup Redef2
+\* what is checked where a function body ENDS, in every spelling of the text (round 15: a blank or comment line in front of the closing brace switched the checks off)
+EndKinds == {"none", "only-in-if", "then-stmt", "two-for-one", "none-for-one", "string-for-int", "ok", "ok-void", "value-in-void"}
+EndBody(kd) ==
+  CASE kd = "none" -> <<Func("f", <<>>, <<"int">>, <<Print1(I("1"))>>)>>
+    [] kd = "only-in-if" -> <<Func("f", <<>>, <<"int">>, <<If1(BoolL(TRUE), <<RetS(<<I("1")>>)>>)>>)>>
+    [] kd = "then-stmt" -> <<Func("f", <<>>, <<"int">>, <<RetS(<<I("1")>>), Print1(I("2"))>>)>>
+    [] kd = "two-for-one" -> <<Func("f", <<>>, <<"int">>, <<Print1(I("1")), RetS(<<I("1"), I("2")>>)>>)>>
+    [] kd = "none-for-one" -> <<Func("f", <<>>, <<"int">>, <<Print1(I("1")), RetS(<<>>)>>)>>
+    [] kd = "string-for-int" -> <<Func("f", <<>>, <<"int">>, <<Print1(I("1")), RetS(<<StrL("s")>>)>>)>>
+    [] kd = "ok" -> <<Func("f", <<>>, <<"int">>, <<If1(BoolL(TRUE), <<RetS(<<I("1")>>)>>), RetS(<<I("2")>>)>>), Print1(CallE("f", <<>>))>>
+    [] kd = "ok-void" -> <<Func("f", <<>>, <<>>, <<Print1(I("1"))>>), ExprS(CallE("f", <<>>))>>
+    [] kd = "value-in-void" -> <<Func("f", <<>>, <<>>, <<Print1(I("1")), RetS(<<I("1")>>)>>)>>
+EndCases == {[id |-> "C07/endbody/" \o kd \o "/" \o pl \o "/" \o sp, prog |-> ProgOf(IF pl = "first" THEN EndBody(kd) \o <<Print1(StrL("end"))>> ELSE <<Def1("g0", I("0")), Func("other", <<>>, <<>>, <<Print1(StrL("o"))>>)>> \o EndBody(kd)), spell |-> sp]
+             : kd \in EndKinds, pl \in {"first", "last"}, sp \in {"plain", "airy", "brackets", "lean"}}
+All == EndCases \cup LoopScope \cup VarPairs \cup FuncPairs \cup PlaceCases \cup Redef \cup Redef2
 ASSUME ndJsonSerialize("fam.ndjson", SetToSeq(All))
 =============================================================================
